@@ -268,7 +268,7 @@ class Printer(object):
         if k == "Todo":
             return ("todo" if e.msg is None else "todo " + string_lit(e.msg)), -1
         if k == "TraceIfFalse":
-            return self.ex(e.e, P_POST) + "?", P_POST
+            return self.ex(e.e, P_POST) + "?", P_UN
         if k == "Builtin":
             return "builtin." + e.name + "(" + ", ".join(self.ex(a, 0) for a in e.args) + ")", P_POST
         raise ValueError(k)
